@@ -363,6 +363,10 @@ func c09Strata() []*gast.Grammar {
 		mk(r("S", gast.Star(gast.C(gast.S(gast.NotE(gast.Cl(&gast.ClassSpec{Chars: []rune("k"), Inverted: true, IgnoreCase: true})), gast.Dot()), gast.S(gast.NotE(gast.Cl(&gast.ClassSpec{UClasses: []string{"Lu"}, Inverted: true})), gast.Dot()), gast.S(gast.NotE(gast.Ref("D2")), gast.Dot()), gast.L("-")))),
 			r("D2", gast.C(gast.L(","), gast.L(";")))),
 		mk(r("S", gast.Star(gast.C(gast.S(gast.AndE(gast.Cl(&gast.ClassSpec{Ranges: rng09, Inverted: true})), gast.Dot()), gast.S(gast.NotE(gast.NotE(inv("q"))), gast.Dot()), gast.L("q"))))),
+		// caseless classes whose range crosses the case blocks next to a character that lies inside the
+		// range as written but outside the range as it is matched (after lower-casing)
+		mk(r("S", gast.Star(gast.C(act(gast.Plus(gast.Cl(&gast.ClassSpec{Chars: []rune("_"), Ranges: [][2]rune{{'A', 'z'}}, IgnoreCase: true})), 1), gast.Cl(&gast.ClassSpec{Chars: []rune("_^0"), Ranges: [][2]rune{{'A', 'z'}}, IgnoreCase: true, Inverted: true}), gast.Dot())))),
+		mk(r("S", gast.Star(gast.C(gast.Li("_"), gast.Cl(&gast.ClassSpec{Ranges: [][2]rune{{'A', 'z'}}, IgnoreCase: true}), gast.Li("["), gast.L("`"), gast.Cl(&gast.ClassSpec{Chars: []rune("]\\"), Ranges: [][2]rune{{'X', 'c'}}}), gast.L("-"))))),
 		// recovery expressions that are rules used nowhere else and that reference further rules; an
 		// inline recovery expression made of rule references; a leaf rule used both as recovery
 		// expression and in an ordinary position of the same host
